@@ -88,6 +88,24 @@ def outputs (s : Stmt) : List Nat := outputsE (sacc s)
 /-- `get_in_out_parameters(region)` -/
 def inOut (region : List Stmt) : List Nat × List Nat := (inputs (seqs region), outputs (seqs region))
 
+/-! ### regions of calls (`collect_non_local_symbols=True`)
+
+`get_non_local_read_write_info` + `_resolve_calls_and_unknowns`: every routine reached from the
+region (a kernel, or a routine it calls) contributes, for each non-local (module) variable it
+accesses, its OWN `SingleVariableAccessInfo`; the variable is an output iff some routine
+writes it, and an input iff in some routine its first access is not a write.  The per-routine
+summaries are merged as sets — the order of the calls plays no role.  `G` are the non-local
+variables (callee locals and arguments are not reported by this path). -/
+
+def unionMap (f : Stmt → List Nat) : List Stmt → List Nat
+  | [] => []
+  | b :: r => f b ++ unionMap f r
+
+def inputsCalls (G : List Nat) (bodies : List Stmt) : List Nat :=
+  (dedup (unionMap inputs bodies)).filter G.contains
+def outputsCalls (G : List Nat) (bodies : List Stmt) : List Nat :=
+  (dedup (unionMap outputs bodies)).filter G.contains
+
 /-! ### the decidable side conditions of the partial theorems
 
 `chk K s D` walks the statement, `K` being the recorded inputs and `D` the scalars that have
